@@ -5,6 +5,8 @@ import (
 	"math/rand/v2"
 	"strings"
 
+	"github.com/nlnwa/whatwg-url/url"
+
 	"verif/core"
 	"verif/gen"
 	"verif/refmodel"
@@ -104,7 +106,10 @@ func (m c09) Run(ctx *core.Ctx) {
 	for i := int64(0); i < n; i++ {
 		if r.IntN(25) == 0 {
 			d := gen.Pick(r, []string{"localhost", "LOCALHOST", "LocalHost", "lOCALHOSt"})
-			cs := &core.Case{Check: "localhost", Input: core.S(c09Spell(r, d)), Base: core.S(d)}
+			cs := &core.Case{Check: "localhost", Input: core.S(c09Spell(r, d)), Base: core.S(d), N: r.IntN(5)}
+			if r.IntN(4) == 0 {
+				cs.Input = core.S(d) // also the plain spellings themselves
+			}
 			ctx.Begin(cs)
 			m.Exec(ctx, cs)
 			continue
@@ -134,6 +139,40 @@ func (m c09) Exec(ctx *core.Ctx, cs *core.Case) {
 		in := "file://" + string(cs.Input) + "/x"
 		ctx.Nontrivial()
 		h, ok, pan := m.hostOf(ctx, in)
+		if cs.N > 0 {
+			// the same through the other routes by which a file URL gets a host: the host setters
+			// (on a file URL without host, and on one that still carries "localhost" from its time
+			// as an http URL) and a scheme-relative reference against a file base
+			sp := string(cs.Input)
+			route := []string{"", "SetHost on file:///x", "SetHostname on file:///x", "http://localhost/x -> SetProtocol(file) -> SetHostname", "//<spelling>/y against file:///x"}[cs.N]
+			in = route + " with " + fmt.Sprintf("%q", sp)
+			ctx.Count("localhost_route:" + route)
+			pan = ctx.Call(len(sp)+256, func() {
+				var u *url.Url
+				var err error
+				switch cs.N {
+				case 1, 2:
+					if u, err = url.Parse("file:///x"); err == nil {
+						if cs.N == 1 {
+							u.SetHost(sp)
+						} else {
+							u.SetHostname(sp)
+						}
+					}
+				case 3:
+					if u, err = url.Parse("http://localhost/x"); err == nil {
+						u.SetProtocol("file")
+						u.SetHostname(sp)
+					}
+				case 4:
+					u, err = url.ParseRef("file:///x", "//"+sp+"/y")
+				}
+				ok = err == nil && u != nil
+				if ok {
+					h = u.Hostname()
+				}
+			})
+		}
 		if pan != nil {
 			ctx.Violate("panic", "", pan.String(), in)
 		} else if !ok || h != "" {
